@@ -510,5 +510,150 @@ class Reproduce(Stream):
                 yield dict(case, opts=dict(case["opts"], **{k: val}))
 
 
+class _Runfiles:
+    """stand-in for Bazel's runfiles library: keys are paths below one root"""
+
+    def __init__(self, root):
+        self.root = root
+
+    def Rlocation(self, key):
+        return os.path.join(self.root, key)
+
+
+class BazelUpdate(Stream):
+    """the Bazel front-end (`bazel run //pkg:requirements.update`, private/compiler.py parse_args + compile_main): first
+    compile writes the solution; the find-links directory gains versions; the updater runs again on unchanged inputs -
+    it must reuse the solution unless --upgrade is given"""
+    name = "bazel-update"
+    quick_n = 40
+    thorough_n = 2000
+    batch = 10
+    parallel_quick = 4
+    shrink_budget = 40
+
+    def setup(self):
+        self.tmp = tempfile.mkdtemp(prefix="rvc05b")
+
+    def teardown(self):
+        shutil.rmtree(getattr(self, "tmp", ""), ignore_errors=True)
+
+    def generate(self, rng):
+        case = SS.gen_universe(rng, "dag-free")
+        names = list(case["universe"])
+        gained = []
+        for _ in range(rng.randint(1, 4)):
+            n = rng.choice(names)
+            gained.append([n, rng.choice(GL.VERS[2:]), []])
+        return {"universe": case["universe"], "inputs": case["inputs"][:1], "gained": gained, "shape": "dag-free",
+                "allow_sdists": rng.random() < 0.3}
+
+    @staticmethod
+    def _wheels(d, universe):
+        from rv import backends as B
+        files = {}
+        for n, vs in universe.items():
+            for v, reqs in vs.items():
+                extras = sorted({e for r in reqs for e in (["x"] if 'extra == "x"' in r else []) + (["y"] if 'extra == "y"' in r else []) +
+                                 (["p.q"] if 'extra == "p.q"' in r else [])})
+                files[B.wheel_name(n, v)] = B.wheel_bytes(n, v, requires=reqs, extras=extras)
+        B.write_findlinks(d, files)
+
+    def _update(self, pc, root, extra):
+        import json as _json
+        argv = ["--requirements_file", "ws/pkg/requirements.in", "--solution", "ws/pkg/requirements.txt",
+                "--custom_compile_command", _json.dumps("bazel run //pkg:requirements.update"),
+                "--output", "pkg/requirements.txt", "--no_index"] + list(extra)
+        out, err = io.StringIO(), io.StringIO()
+        code = 0
+        exc = None
+        try:
+            with contextlib.redirect_stdout(out), contextlib.redirect_stderr(err):
+                args = pc.parse_args(argv)
+                pc.compile_main(args, _Runfiles(root))
+        except SystemExit as ex:
+            code = ex.code if isinstance(ex.code, int) else 1
+        except Exception as ex:
+            exc = type(ex).__name__ + ": " + str(ex)[:200]
+        with open(os.path.join(root, "ws", "pkg", "requirements.txt")) as f:
+            text = f.read()
+        body = "\n".join(l for l in text.splitlines() if not l.startswith("##"))
+        return {"code": code, "exception": exc, "text": body, "stderr": err.getvalue()[-300:]}
+
+    def impl(self, case):
+        from rv.core import digest
+        from rv.bazelfe import load_private_compiler
+        GL.reset_caches()
+        pc = load_private_compiler()
+        root = os.path.join(self.tmp, digest(case))
+        shutil.rmtree(root, ignore_errors=True)
+        pkg = os.path.join(root, "ws", "pkg")
+        os.makedirs(pkg)
+        self._wheels(os.path.join(pkg, "wheeldir"), case["universe"])
+        with open(os.path.join(pkg, "requirements.in"), "w") as f:
+            f.write("--find-links wheeldir\n\n" + "\n".join(case["inputs"][0]) + "\n")
+        open(os.path.join(pkg, "requirements.txt"), "w").close()
+        old_ws = os.environ.get("BUILD_WORKSPACE_DIRECTORY")
+        os.environ["BUILD_WORKSPACE_DIRECTORY"] = os.path.join(root, "ws")
+        extra = ["--allow_sdists"] if case["allow_sdists"] else []
+        try:
+            out = {"first": self._update(pc, root, extra)}
+            if out["first"]["code"] == 0 and not out["first"]["exception"]:
+                grown = {}
+                for n, v, reqs in case["gained"]:
+                    if v not in case["universe"].get(n, {}):
+                        grown.setdefault(n, {})[v] = reqs
+                self._wheels(os.path.join(pkg, "wheeldir"), grown)
+                GL.reset_caches()
+                out["again"] = self._update(pc, root, extra)
+                GL.reset_caches()
+                out["third"] = self._update(pc, root, extra)
+                saved = out["third"]["text"]
+                GL.reset_caches()
+                out["upgrade"] = self._update(pc, root, extra + ["--upgrade"])
+                # what a fresh solve of the grown directory gives (empty solution)
+                open(os.path.join(pkg, "requirements.txt"), "w").close()
+                GL.reset_caches()
+                out["fresh"] = self._update(pc, root, extra)
+        finally:
+            if old_ws is None:
+                os.environ.pop("BUILD_WORKSPACE_DIRECTORY", None)
+            else:
+                os.environ["BUILD_WORKSPACE_DIRECTORY"] = old_ws
+            shutil.rmtree(root, ignore_errors=True)
+        return out
+
+    def flags(self, case, r):
+        fl = ["first-exit:%s" % r["first"]["code"]]
+        if "again" in r:
+            fl.append("solution-fed-back")
+            if r["fresh"]["text"] != r["first"]["text"]:
+                fl.append("a-fresh-solve-of-the-grown-directory-differs")
+        if case["allow_sdists"]:
+            fl.append("--allow_sdists")
+        return fl
+
+    def oracle(self, case, r):
+        fails = []
+        for k in ("first", "again", "third", "upgrade", "fresh"):
+            if k in r and r[k]["exception"]:
+                return [("C05/bazel-update-raises/" + k, r[k])]
+        if "again" not in r:
+            return []
+        if r["again"]["code"] != 0 or r["again"]["text"] != r["first"]["text"]:
+            fails.append(("C05/bazel-update-does-not-reproduce-its-solution", {"first": r["first"]["text"], "again": r["again"]["text"], "exit": r["again"]["code"]}))
+        elif r["third"]["text"] != r["first"]["text"]:
+            fails.append(("C05/bazel-update-chain-differs", {"first": r["first"]["text"], "third": r["third"]["text"]}))
+        if r["upgrade"]["code"] == 0 and r["fresh"]["code"] == 0 and r["upgrade"]["text"] != r["fresh"]["text"]:
+            fails.append(("C05/bazel-upgrade-is-not-a-fresh-solve", {"upgrade": r["upgrade"]["text"], "fresh": r["fresh"]["text"]}))
+        return fails
+
+    def shrink(self, case):
+        from rv.props.c07 import CliVariants
+        for c in CliVariants.shrink(self, case):
+            yield c
+        for i in range(len(case["gained"])):
+            yield dict(case, gained=case["gained"][:i] + case["gained"][i + 1:])
+
+
 def streams():
-    return [Reproduce()]
+    return [Reproduce(), BazelUpdate()]
